@@ -15,13 +15,13 @@ TEXT = {
          'Lean kernel (core only for C03, no Mathlib); compressed-key round trip carries the square-root hypothesis until linked with Proofs/Field; tie to C = differential testing of the hand-written model.'),
  'C04': ('Heap sort proved to return a sorted permutation for every length and every total preorder (fuel sufficiency included); key-algebra commutation proved under the group law; all 15+ API functions tied by correspondence incl. chains of mixed tweaks, cancelling combines, sort lengths to 200.',
          'Lean kernel + Mathlib for the algebra part; statements about arbitrary parsed keys that need n·Q = ∞ carry that hypothesis explicitly; tie to C = differential testing.'),
- 'C05': ('Limb-level and group-level theorems about code REGENERATED from the C sources on every run: 5x52 and 10x26 field mul/sqr/normalize/add/mul_int/half/negate exact for all limb values within the documented magnitudes (plus the invariant that keeps the 10x26 normalisation away from finding F4), scalar 4x64 AND 8x32 add/negate/mul_512/reduce_512/mul/half/cadd_bit (4x64 also mul_shift_var for every shift), the emulated 128-bit integer, the square-root addition chain with ge_set_xquad / ge_set_xo_var = the model lift_x, and the group functions of group_impl.h (gej_double, complete gej_add_ge, gej_add_var, gej_add_ge_var, gej_add_zinv_var, ...) proved equal to the affine group law with every magnitude precondition discharged statically; SHA-256 streaming = one-shot for every chunking, tagged hashes, HMAC, RFC 6979; every translated function is also executed against the real one (k_run, f_run) and the whole arithmetic API is compared with the model in four limb/asm configurations (six in the thorough tier).',
+ 'C05': ('Limb-level and group-level theorems about code REGENERATED from the C sources on every run: 5x52 and 10x26 field mul/sqr/normalize/add/mul_int/half/negate exact for all limb values within the documented magnitudes (plus the invariant that keeps the 10x26 normalisation away from finding F4), scalar 4x64 AND 8x32 add/negate/mul_512/reduce_512/mul/half/cadd_bit (4x64 also mul_shift_var for every shift), the emulated 128-bit integer and the field multiplication built on it (by a verified simulation against the native kernel), the square-root addition chain with ge_set_xquad / ge_set_xo_var = the model lift_x, and the group functions of group_impl.h (gej_double, complete gej_add_ge, gej_add_var, gej_add_ge_var, gej_add_zinv_var, ...) proved equal to the affine group law with every magnitude precondition discharged statically; SHA-256 streaming = one-shot for every chunking, tagged hashes, HMAC, RFC 6979; every translated function is also executed against the real one (k_run, f_run) and the whole arithmetic API is compared with the model in four limb/asm configurations (six in the thorough tier).',
          'Lean kernel + Mathlib; translator tools/c2lean_k.py / c2lean_f.py over clang-14 ASTs (validated by running IR and C function on the same inputs); the value semantics of the group-level IR rests on the limb-level theorems, their composition (argument aliasing inside field primitives) is checked by correspondence only; x86-64 assembly, safegcd modinv, wNAF/Strauss/Pippenger/comb algorithms are tied by correspondence only (with carry-maximising crafted inputs); known findings F4 (10x26 normalisation on the magnitude-32 extreme of fe_get_bounds) and F5 (fe_equal at b magnitude 31).'),
  'C06': ('Leakage-trace non-interference proved for the translated constant-time primitives via a verified taint checker; the compiled binary is observed under valgrind with secrets undefined (own copy of the maintainers\' secret-argument list, several configurations).',
          'Source-level leakage model of the translator; compiler/CPU behaviour outside any Lean model (partial); valgrind observes executed paths only.'),
  'C07': ('Index/length arithmetic and closure (parsed ⇒ valid) of every parser proved on the model; every entry point run under ASan+UBSan+leak detection with callback counters on structured mutations of valid artefacts and random bytes.',
          'Memory safety of the compiled C is a runtime fact: proved for the modelled logic, observed by sanitizers on generated inputs (partial).'),
- 'C08': ('commit = b·G + v·H with exact failure cases, tally ⇔ sum = ∞, blind-sum bookkeeping, codecs; model tied by correspondence (boundary blinds/values, mixed generators, balanced/unbalanced tallies, all prefixes × boundary x).',
+ 'C08': ('commit = b·G + v·H with exact failure cases, tally ⇔ sum = ∞, blind-sum bookkeeping, codecs; the Shallue-van de Woestijne map regenerated from the C source proved equal to the model function (always a valid curve point); model tied by correspondence (boundary blinds/values, mixed generators, balanced/unbalanced tallies, all prefixes × boundary x).',
          'Lean kernel + Mathlib; "balance only if values balance" needs independence of generators (discrete-log assumption) and is stated with that hypothesis.'),
  'C09': ('Parameter layer proved for all inputs (value reconstruction, ring layout bounds, header round trip, size bound); `rangeproof_complete`: every proof that sign creates is accepted by verify with the header\'s range (no expanded ring key at infinity); Borromean ring completeness; byte-exact correspondence of sign/verify/rewind/info incl. exhaustive exp×min_bits grid.',
          'Lean kernel + Mathlib; "any other nonce fails" is conditional on hash outputs differing; tie to C = differential testing.'),
